@@ -256,15 +256,42 @@ class Run:
         cmd = [exe] + args + ["--result", res]
         if input_path:
             cmd += ["--in", input_path]
+        env = dict(os.environ)
+        racelog = None
+        if race:
+            racelog = os.path.join(self.scratch, "race-%d" % self.n_tlc)
+            env["GORACE"] = "exitcode=0 log_path=%s history_size=3" % racelog
         try:
-            p = subprocess.run(cmd, stdout=subprocess.PIPE, stderr=subprocess.STDOUT, text=True, timeout=timeout)
+            p = subprocess.run(cmd, stdout=subprocess.PIPE, stderr=subprocess.STDOUT, text=True, timeout=timeout, env=env)
         except subprocess.TimeoutExpired:
             raise Inconclusive("harness timed out in %s" % stage)
         if p.returncode != 0 or not os.path.exists(res):
             raise Inconclusive("harness failed in %s (exit %s): %s" % (stage, p.returncode, (p.stdout or "")[-3000:]))
         s = json.load(open(res))
         self.absorb(s, stage, time.time() - t)
+        if racelog:
+            self.race_reports(racelog, stage)
         return s
+
+    def race_reports(self, prefix, stage):
+        """The Go race detector is an external observer of all memory: each report with a frame of package bcl is an event that
+        no behaviour of the specification contains."""
+        import glob
+        seen = {}
+        for path in glob.glob(prefix + "*"):
+            text = open(path, errors="replace").read()
+            for rep in text.split("=================="):
+                if "DATA RACE" not in rep or "github.com/wkhere/bcl" not in rep:
+                    continue
+                fns = re.findall(r"github\.com/wkhere/bcl\.([\w\.\(\)\*]+)\(", rep)
+                key = "race:" + "|".join(sorted(set(fns))[:4])
+                seen.setdefault(key, [0, rep.strip()[:3000]])
+                seen[key][0] += 1
+        for key, (n, rep) in seen.items():
+            self.violations.append(dict(why="the Go race detector reports a data race inside package bcl (%d report(s))" % n, shape=key,
+                                        case=dict(fam="race", stage=stage), observed=rep, confirmed=True, stage=stage, shape_total=n))
+        self.extra.setdefault("race_detector_runs", 0)
+        self.extra["race_detector_runs"] += 1
 
     def absorb(self, s, stage, wall):
         """Fold a harness summary into the run: counts, samples, mismatches -> violations, drift."""
@@ -319,19 +346,26 @@ class Run:
         r = self.tlc(module, cfg, workers=workers, files=files, deque=deque, timeout=timeout, label=stage)
         return r
 
-    def tv(self, module, constants, trace_path, stage, n_traces, redrive=None, deque=False, timeout=1200, extra_cfg=""):
+    def tv(self, module, constants, trace_path, stage, n_traces, redrive=None, deque=False, timeout=1200, extra_cfg="", invariants=()):
         """Trace validation: TLC must consume the whole file. On rejection the first unconsumed line identifies the trace;
         it is re-driven once from its recorded source (redrive(src_path, out_path)) and re-validated before it counts."""
-        c = cfg(constants=constants, constraint="Mark", postcondition="Accepted") + extra_cfg
+        c = cfg(constants=constants, constraint="Mark", postcondition="Accepted", invariants=invariants) + extra_cfg
         r = self.tlc(module, c, workers=1, files={"trace.ndjson": "@" + trace_path}, deque=deque, timeout=timeout, label=stage)
         text = r["text"]
-        m = re.search(r'<<"REJECTED-AT", (\d+), (\d+)>>', text)
+        m = None if r.get("violated") else re.search(r'<<"REJECTED-AT", (\d+), (\d+)>>', text)
         if r["ok"] and not m:
             self.traces += n_traces
             return True
         if not m:
             if r.get("violated"):
-                raise Inconclusive("trace spec %s reported %s" % (module, r["violated"]))
+                mt = re.findall(r"/\\ t = (\d+)", text)
+                tid = int(mt[-1]) if mt else 0
+                lines = open(trace_path).read().splitlines()
+                hdr = json.loads(lines[tid - 1]) if 0 < tid <= len(lines) else {}
+                self.violations.append(dict(why="invariant %s of %s is violated by recorded execution %d (%s)" % (r["violated"], module, tid, hdr.get("desc", "")),
+                                            shape="tv-inv:" + r["violated"], case=dict(fam="trace", id=hdr.get("id"), desc=hdr.get("desc")),
+                                            observed="\n".join([l for l in text.splitlines() if l.startswith("/\\ ")][-32:]), confirmed=True, stage=stage))
+                return False
             raise Inconclusive("trace validation failed without a rejection point in %s" % stage)
         at = int(m.group(1))
         lines = open(trace_path).read().splitlines()
